@@ -316,3 +316,21 @@ SUBCHECKS = [
 ]
 SUBCHECKS[0].expected_classes = ["same_qubits_other_order", "merging", "permuted_qubits", "multi_digit_outcome", "normalize_off", "form:tuple", "form:str", "form:comma"]
 SUBCHECKS[3].expected_classes = ["single_subsystem_multi_digit", "multi_digit_outcome"]
+
+
+def _campaigns(tier):
+    import os
+
+    seed = int(os.environ.get("VERIF_SEED_EFFECTIVE", "1"))
+    for corpus in ("empty", "seeded"):
+        yield {"target": "marginal", "runs": 150000, "corpus": corpus, "seed": seed, "max_len": 192}
+
+
+def o_fuzz(spec):
+    from vlib.fuzz import run_campaign
+
+    return run_campaign(spec)
+
+
+SUBCHECKS.append(SubCheck("atheris_marginal", o_fuzz, enumerate=_campaigns, shards=(1, 2), tiers=("thorough",), timeout=(600, 3000),
+                          rule="coverage-guided (Atheris/libFuzzer) campaigns, empty and seeded corpus: bytes -> (weights dictionary, qubit lists) -> normalisation and marginal oracle"))
